@@ -410,8 +410,14 @@ Ltac ds := intros; repeat ds_step.
 Lemma dstep_write_entries : forall dids l, dstep dids (write_entries l).
 Proof. intros dids l. induction l as [|i l IH]; cbn [write_entries]; ds. exact IH. Qed.
 
+Lemma dstep_with_dir_entry_mut_inner : forall dids id f, dstep dids (with_dir_entry_mut_inner id f).
+Proof. intros. unfold with_dir_entry_mut_inner. ds. Qed.
+
 Lemma dstep_with_dir_entry_mut : forall dids id f, dstep dids (with_dir_entry_mut id f).
-Proof. intros. unfold with_dir_entry_mut. ds. Qed.
+Proof.
+  intros dids id f s s' a HD H. apply DirProofs.with_dir_entry_mut_ok_inv in H.
+  exact (dstep_with_dir_entry_mut_inner dids id f s s' a HD H).
+Qed.
 
 Lemma dstep_free_dir_entry : forall dids id, dstep dids (free_dir_entry id).
 Proof. intros. unfold free_dir_entry. ds. Qed.
@@ -2329,7 +2335,10 @@ Lemma wdem_total : forall dids s id f e,
   DH dids s -> nthN (dirs s) id = Some e -> lenN (utf16 (d_name (f e))) <= 31 ->
   exists s', with_dir_entry_mut id f s = (s', Ok tt).
 Proof.
-  intros dids s id f e HD He Hn. unfold with_dir_entry_mut.
+  intros dids s id f e HD He Hn.
+  cut (exists s', with_dir_entry_mut_inner id f s = (s', Ok tt)).
+  { intros [s' E]. exists s'. apply DirProofs.with_dir_entry_mut_ok. exact E. }
+  unfold with_dir_entry_mut_inner.
   pose proof (nthN_Some_lt _ _ _ _ He) as Hlt.
   assert (E1 : dir_entry id s = (s, Ok e)) by (unfold dir_entry, bind, get, ret; rewrite He; reflexivity).
   assert (E2 : set_dir_entry id (f e) s = (w_dirs s (updN (dirs s) id (f e)), Ok tt))
@@ -2358,7 +2367,7 @@ Proof.
     destruct (wdem_total dids s id f e HD He) as (s2 & E).
     + rewrite Hf. rewrite Forall_nthN in Hents. eapply ent_name_len. eapply Hents. exact He.
     + rewrite E in H. discriminate H.
-  - unfold with_dir_entry_mut in H. unfold bind at 1 in H.
+  - unfold with_dir_entry_mut, with_dir_entry_mut_inner in H. unfold bind at 1 in H.
     rewrite QueryRefine.q_dir_entry_run in H. unfold dir_entry_of in H. rewrite He in H. discriminate H.
 Qed.
 
